@@ -270,7 +270,9 @@ def body_eval(c, ctx):
                  f'max diff {np.abs(gi_ - wshape).max() if gi_.shape == wshape.shape else "-"}', **sig)
     # one point after the other: the same numbers
     f2 = basis.interpolator(u)
-    for j in range(min(3, len(pts))):
+    # (every point, each asked twice in a row, then the sequence backwards: what was evaluated before must not matter)
+    npt = len(pts)
+    for j in [q for k_ in range(npt) for q in (k_, k_)] + list(range(npt))[::-1]:
         one = np.asarray(f2(x[:, j:j + 1]))
         ref = wshape[..., j:j + 1]
         if one.shape != ref.shape or not np.allclose(one, ref, rtol=0, atol=1e-9 * mag):
